@@ -1,7 +1,7 @@
 """C16 (partial): R-IDX, R-CAP, R-EOF, R-REC, R-DIV, R-WRAP, T-TBL, R-NULL over everything reachable from naken_asm."""
 from nk import report
 from nk.interval import Analyzer
-from rules import strs, wrap, idx, term, div, lane, tbl, null, expr, nulstep
+from rules import strs, wrap, idx, term, div, lane, tbl, null, expr, nulstep, onesided
 from . import common
 
 EXPLANATION = (
@@ -13,7 +13,7 @@ EXPLANATION = (
     'constant-true loop that reads input has an exit depending on the reader\'s end-of-input value. R-REC: every call-graph '
     'cycle has a depth guard. R-DIV: every divisor is proven non-zero. R-WRAP: page tests are computed in 64 bits. T-TBL: '
     'every opcode table walked to a null mnemonic ends with a null row. POOL-FIT: the largest record a pool-append loop admits fits a fresh pool (else the loop allocates forever). R-NULL: no dereference on a path where the pointer '
-    'was found null. R-STR: a strcpy/strcat whose destination capacity and worst-case source lengths are known (arrays, literals, table columns, caller buffers; flow-sensitive length of the destination) fits; the others are listed as not decided. WRAP-LOOP: no 32-bit counter is compared with an inclusive bound that can be 0xffffffff. NUL-STEP: on the edge on which a scanner finds the terminator of the string it scans, no increment of its cursor is reached before the character is tested again (a step over the terminator makes stale bytes of an earlier line part of the input). Not decided: time proportional to input, heap exhaustion, string copies whose lengths are not bounded by declarations. STR-GROW: a strcat in a loop driven by input tokens is preceded, inside the loop, by a test of strlen of its destination (or the destination is known to equal a literal). DIV-OVF: a signed division by a variable cannot be MIN / -1 (divisor range, dividend range, or a dominating `== -1` test). SHIFT-TERM: loops that shift a variable right until it is 0 use an unsigned variable. VLA-BOUND: no variable-length array on the stack outside the listed exception.')
+    'was found null. R-STR: a strcpy/strcat whose destination capacity and worst-case source lengths are known (arrays, literals, table columns, caller buffers; flow-sensitive length of the destination) fits; the others are listed as not decided. WRAP-LOOP: no 32-bit counter is compared with an inclusive bound that can be 0xffffffff. NUL-STEP: on the edge on which a scanner finds the terminator of the string it scans, no increment of its cursor is reached before the character is tested again (a step over the terminator makes stale bytes of an earlier line part of the input). ONE-SIDED: a directive argument that is rejected above a limit is also tested from below or against zero. Not decided: time proportional to input, heap exhaustion, string copies whose lengths are not bounded by declarations. STR-GROW: a strcat in a loop driven by input tokens is preceded, inside the loop, by a test of strlen of its destination (or the destination is known to equal a literal). DIV-OVF: a signed division by a variable cannot be MIN / -1 (divisor range, dividend range, or a dominating `== -1` test). SHIFT-TERM: loops that shift a variable right until it is 0 use an unsigned variable. VLA-BOUND: no variable-length array on the stack outside the listed exception.')
 
 
 def run(tier, t0):
@@ -31,7 +31,7 @@ def run(tier, t0):
                strs.strs(prog, cg, scope, 10), strs.str_loops(prog, scope, an, 0),
                wrap.wrap_loops(prog, lambda f: f.file.startswith(('fileio/write', 'main/naken_asm', 'core/')), an, 8),
                wrap.shift_term(prog), div.div_ovf(prog, scope, 10), strs.str_grow(prog, scope, 8), wrap.vla(prog, lambda f: f.file.startswith(('core/', 'asm/', 'fileio/', 'common/', 'main/'))),
-               nulstep.nul_step(prog, lambda f: f.file.startswith(('core/', 'asm/', 'main/naken_asm', 'fileio/write')) and f.file != 'core/UtilContext.cpp', 45)]
+               nulstep.nul_step(prog, lambda f: f.file.startswith(('core/', 'asm/', 'main/naken_asm', 'fileio/write')) and f.file != 'core/UtilContext.cpp', 45), onesided.one_sided(prog)]
     return report.finish('C16', tier, results, EXPLANATION,
                          ['the invariants listed for not-decided subscripts were read from the code and replayed under ASan '
                           'during triage; they are not re-proved by the check'], common.TRUSTED, t0)
